@@ -15,7 +15,7 @@
 
    Invariance under all relabellings follows from the generators: the set of molecules visited
    is closed under relabelling.                                                              *)
-EXTENDS Tucan, Json
+EXTENDS Tucan, Bliss, Json
 
 CONSTANTS MaxN,        \* largest number of atoms
           Palette      \* set of colours <<z, mass, rad>> atoms may take
@@ -48,20 +48,6 @@ MkMol(n, col, E) ==
 Gen(n) == IF n = 1 THEN {[a \in 1..1 |-> 1]}
           ELSE {[a \in 1..n |-> IF a = 1 THEN 2 ELSE IF a = 2 THEN 1 ELSE a],      \* transposition (1 2)
                 [a \in 1..n |-> IF a = n THEN 1 ELSE a + 1]}                          \* n-cycle
-
-\* ---------------------------------------------------------------- the bliss contract (igraph)
-\* canonical form = the relabelling with the smallest code; code = classes by new label, then the
-\* adjacency matrix row by row.  Every labelling that reaches the smallest code is a legal answer.
-Code(G) == [i \in 1..(G.n + G.n * G.n) |->
-              IF i <= G.n THEN G.part[i]
-              ELSE LET k == i - G.n - 1  a == (k \div G.n) + 1  b == (k % G.n) + 1 IN IF b \in G.adj[a] THEN 0 ELSE 1]
-CanonLabellings(G) ==
-  LET codes == TLCEval([f \in Perms(G.n) |-> Code(Apply(G, f))])
-      best  == CHOOSE f \in Perms(G.n) : \A h \in Perms(G.n) : ~SeqLess(codes[h], codes[f])
-  IN {f \in Perms(G.n) : codes[f] = codes[best]}
-
-SpecCanonicalize(G, f) == Apply([G EXCEPT !.part = FinalPartition(G)], f)
-WithPart(G) == [G EXCEPT !.part = FinalPartition(G)]
 
 \* ---------------------------------------------------------------- the session
 MInit == /\ Init /\ pc = "input" /\ pick = 0
